@@ -173,12 +173,13 @@ fn skrifa_points(data: &[u8], gid: u32) -> Result<Vec<i64>, String> {
 
 pub fn run(cfg: &Config, s: &mut Session) {
     let mut rng = Rng::new(cfg.seed ^ 0x30FE);
-    let per_kind = if cfg.thorough() { 40_000 } else { 5_000 };
+    let per_kind = if cfg.thorough() { 60_000 } else { 12_000 };
     let per_glyph = 40usize;
     let lib = freetype::Library::init().unwrap();
     for kind in 0..3u8 {
         let name = ["mirp", "miap", "mdrp"][kind as usize];
         let cases: Vec<Case> = (0..per_kind).map(|_| gen_case(&mut rng, kind)).collect();
+        let mut failures_recorded = 0;
         let mut glyphs = vec![];
         for chunk in cases.chunks(per_glyph) {
             let mut pts: Vec<(i16, i16, bool)> = vec![(0, 0, true)];
@@ -240,7 +241,17 @@ pub fn run(cfg: &Config, s: &mut Session) {
                     Err(_) => "trap".into(),
                 };
                 s.case(["sk.mirp", "sk.miap", "sk.mdrp"][kind as usize], cs.request("sk"), sy.clone());
-                s.oracle(["kernel:MIRP==FreeType-interpreter", "kernel:MIAP==FreeType-interpreter", "kernel:MDRP==FreeType-interpreter"][kind as usize], sy == fy.to_string(), || format!("{cs:?}"), || format!("skrifa {sy} freetype {fy}"));
+                // a broken handler fails thousands of cases: record 24 per opcode, count the rest, so that the
+                // session's cap of recorded failures still has room for the whole-outline layers
+                let ok = sy == fy.to_string();
+                if ok || failures_recorded < 24 {
+                    s.oracle(["kernel:MIRP==FreeType-interpreter", "kernel:MIAP==FreeType-interpreter", "kernel:MDRP==FreeType-interpreter"][kind as usize], ok, || format!("{cs:?}"), || format!("skrifa {sy} freetype {fy}"));
+                    if !ok {
+                        failures_recorded += 1;
+                    }
+                } else {
+                    s.count(&format!("movekern:{name}:further-failures-not-recorded"));
+                }
             }
         }
     }
